@@ -474,41 +474,69 @@ impl std::ops::Mul<i32> for Glue {
 
 impl Glue {
     /// TeX.2021.1239
+    ///
+    /// Here `self` is the current value of the glue and `rhs` is the value being added to it.
     pub fn wrapping_add(self, rhs: Glue) -> Self {
-        use std::cmp::Ordering::*;
+        let add = |a: Scaled, b: Scaled| Some(a.wrapping_add(b));
+        let (stretch, stretch_order) = Glue::add_component(
+            (self.stretch, self.stretch_order),
+            (rhs.stretch, rhs.stretch_order),
+            add,
+        )
+        .expect("wrapping addition never fails");
+        let (shrink, shrink_order) = Glue::add_component(
+            (self.shrink, self.shrink_order),
+            (rhs.shrink, rhs.shrink_order),
+            add,
+        )
+        .expect("wrapping addition never fails");
         Glue {
             width: self.width.wrapping_add(rhs.width),
-            stretch: match self.stretch_order.cmp(&rhs.stretch_order) {
-                Less => rhs.stretch,
-                Equal => self.stretch.wrapping_add(rhs.stretch),
-                Greater => self.stretch,
-            },
-            stretch_order: self.stretch_order.max(rhs.stretch_order),
-            shrink: match self.shrink_order.cmp(&rhs.shrink_order) {
-                Less => rhs.shrink,
-                Equal => self.shrink.wrapping_add(rhs.shrink),
-                Greater => self.shrink,
-            },
-            shrink_order: self.shrink_order.max(rhs.shrink_order),
+            stretch,
+            stretch_order,
+            shrink,
+            shrink_order,
         }
     }
     pub fn checked_add(self, rhs: Glue) -> Option<Self> {
-        use std::cmp::Ordering::*;
+        let add = |a: Scaled, b: Scaled| a.checked_add(b);
+        let (stretch, stretch_order) = Glue::add_component(
+            (self.stretch, self.stretch_order),
+            (rhs.stretch, rhs.stretch_order),
+            add,
+        )?;
+        let (shrink, shrink_order) = Glue::add_component(
+            (self.shrink, self.shrink_order),
+            (rhs.shrink, rhs.shrink_order),
+            add,
+        )?;
         Some(Glue {
             width: self.width.checked_add(rhs.width)?,
-            stretch: match self.stretch_order.cmp(&rhs.stretch_order) {
-                Less => rhs.stretch,
-                Equal => self.stretch.checked_add(rhs.stretch)?,
-                Greater => self.stretch,
-            },
-            stretch_order: self.stretch_order.max(rhs.stretch_order),
-            shrink: match self.shrink_order.cmp(&rhs.shrink_order) {
-                Less => rhs.shrink,
-                Equal => self.shrink.checked_add(rhs.shrink)?,
-                Greater => self.shrink,
-            },
-            shrink_order: self.shrink_order.max(rhs.shrink_order),
+            stretch,
+            stretch_order,
+            shrink,
+            shrink_order,
         })
+    }
+    /// Add the stretch or shrink components of two glues as in TeX.2021.1239.
+    ///
+    /// A zero amount being added has normal order, and the current value
+    /// only dominates if its order is higher and its amount is non-zero.
+    fn add_component(
+        current: (Scaled, GlueOrder),
+        added: (Scaled, GlueOrder),
+        add: impl Fn(Scaled, Scaled) -> Option<Scaled>,
+    ) -> Option<(Scaled, GlueOrder)> {
+        let (mut amount, mut order) = added;
+        if amount == Scaled::ZERO {
+            order = GlueOrder::Normal;
+        }
+        if order == current.1 {
+            amount = add(current.0, amount)?;
+        } else if order < current.1 && current.0 != Scaled::ZERO {
+            (amount, order) = current;
+        }
+        Some((amount, order))
     }
     pub fn checked_mul(self, rhs: i32) -> Option<Self> {
         Some(Glue {
